@@ -47,6 +47,9 @@ pub fn types() -> Vec<MType> {
         // expressions containing characters that mean something in a URL (quote, angle brackets of a named group)
         t("not-quote", r#"[^"/.]+"#, &["v2", "abc"], &[""]),
         t("named-group", r"(?P<yr>[0-9]{4})-[0-9]{2}", &["2024-05", "1999-12"], &["24-05", "2024-5"]),
+        // counted repetition, an expression that accepts the empty string (used with a sibling rule diverging inside them)
+        t("four-digits", "[0-9]{4}", &["2024", "0007"], &["24", "20245"]),
+        t("digits-star", "[0-9]*", &["", "42"], &["x"]),
     ]
 }
 
@@ -141,6 +144,23 @@ pub struct Case {
     /// Router::cache(None) is called before matching
     #[serde(default)]
     pub cached: bool,
+    /// a second rule lives in the same trees: same template, but every marker expression replaced by a SIBLING expression that
+    /// starts alike and diverges inside (a counted repetition, a quantifier); inserted before (1) or after (2) the rule under test
+    #[serde(default)]
+    pub sibling: u8,
+}
+
+/// an expression that shares its beginning with `expr` and diverges inside it
+pub fn sibling_expr(expr: &str) -> String {
+    match expr {
+        "[0-9]+" => "[0-9]*x".to_string(),
+        "[0-9]{4}" => "[0-9]{2}".to_string(),
+        "[0-9]*" => "[0-9]+".to_string(),
+        "(cat|dog|fish)" => "(cat|dogs)".to_string(),
+        ".+?" => ".*?q".to_string(),
+        e if e.starts_with("[0-9]{4}-") => "[0-9]{2}-[0-9]{2}-[0-9]{4}".to_string(),
+        e => format!("{e}?zz"),
+    }
 }
 
 pub struct Template {
@@ -300,11 +320,36 @@ pub fn check_case(case: &Case) -> Vec<(String, String)> {
     let (rule, req, rc, all_accepted, vars) = build(case);
     let target_template = rule.target.clone().unwrap_or_default();
     let mut router = Router::<Rule>::from_config(rc.clone());
+    let sibling_rule: Option<Rule> = if case.sibling > 0 {
+        let mut v = serde_json::to_value(&rule).unwrap();
+        v["id"] = json!("sib");
+        v["rank"] = json!(0);
+        if let Some(ms) = v["markers"].as_array_mut() {
+            for m in ms {
+                let e = m["regex"].as_str().unwrap_or("").to_string();
+                m["regex"] = json!(sibling_expr(&e));
+            }
+        }
+        serde_json::from_value(v).ok()
+    } else {
+        None
+    };
+    if case.sibling == 1 {
+        if let Some(s) = &sibling_rule {
+            router.insert(s.clone());
+        }
+    }
     router.insert(rule);
+    if case.sibling == 2 {
+        if let Some(s) = &sibling_rule {
+            router.insert(s.clone());
+        }
+    }
     if case.cached {
         router.cache(None);
     }
-    let matched = router.match_request(&req);
+    // (the sibling may match too: the rule under test is "m")
+    let matched: Vec<_> = router.match_request(&req).into_iter().filter(|r| r.id() == "m").collect();
     let mut out = Vec::new();
     let types = types();
     let desc = format!(
@@ -337,7 +382,7 @@ pub fn check_case(case: &Case) -> Vec<(String, String)> {
         "{}{}{}{}",
         t.name,
         if case.header_name_lower { ":header-name-lowercase" } else { "" },
-        if case.with_variables { ":variables" } else if case.static_target { ":static-target" } else if case.extra_header_line { ":second-header-line" } else if case.cached { ":cached" } else { "" },
+        if case.with_variables { ":variables" } else if case.static_target { ":static-target" } else if case.extra_header_line { ":second-header-line" } else if case.cached { ":cached" } else if case.sibling > 0 { ":sibling-rule" } else { "" },
         if trs.is_empty() { String::new() } else { format!(":tr={}", trs.join(">")) }
     );
     let want_location = substitute(&target_template, &vars);
@@ -482,11 +527,16 @@ pub fn cases(tier: Tier) -> Vec<Case> {
                                         transformers: if i == n - 1 { chain.clone() } else { vec![] },
                                     })
                                     .collect();
-                                out.push(Case { template: ti, slots: slots.clone(), header_name_lower, ignore_case, with_variables, static_target, extra_header_line: false, cached: false });
+                                out.push(Case { template: ti, slots: slots.clone(), header_name_lower, ignore_case, with_variables, static_target, extra_header_line: false, cached: false, sibling: 0 });
+                                if chain.is_empty() && !with_variables && !static_target {
+                                    for sibling in [1u8, 2] {
+                                        out.push(Case { template: ti, slots: slots.clone(), header_name_lower, ignore_case, with_variables, static_target, extra_header_line: false, cached: sibling == 2 && !ignore_case, sibling });
+                                    }
+                                }
                                 if chain.is_empty() && !ignore_case {
-                                    out.push(Case { template: ti, slots: slots.clone(), header_name_lower, ignore_case, with_variables, static_target, extra_header_line: false, cached: true });
+                                    out.push(Case { template: ti, slots: slots.clone(), header_name_lower, ignore_case, with_variables, static_target, extra_header_line: false, cached: true, sibling: 0 });
                                     if t.header.is_some() {
-                                        out.push(Case { template: ti, slots, header_name_lower, ignore_case, with_variables, static_target, extra_header_line: true, cached: false });
+                                        out.push(Case { template: ti, slots, header_name_lower, ignore_case, with_variables, static_target, extra_header_line: true, cached: false, sibling: 0 });
                                     }
                                 }
                             }
